@@ -26,14 +26,14 @@ Proof. destruct b; [reflexivity|discriminate]. Qed.
 
 Lemma check_flags c : check c = [] ->
   forallb twice_ok (c_calls c) = true /\ forallb seeds_ok (c_calls c) = true /\
-  (forall kd, (1 <= kd <= 4)%nat -> forallb (pres_ok kd (c_pk c)) (c_calls c) = true) /\
+  (forall kd, (1 <= kd <= 5)%nat -> forallb (pres_ok kd (c_pk c)) (c_calls c) = true) /\
   forallb (shape_ok (c_pk c)) (c_calls c) = true.
 Proof.
   unfold check. intros H.
   repeat (apply app_eq_nil in H; destruct H as [?H H]).
   repeat match goal with Hf : flag _ _ = [] |- _ => apply flag_nil in Hf end.
   split; [assumption|]. split; [assumption|]. split; [|assumption].
-  intros kd Hkd. assert (kd = 1 \/ kd = 2 \/ kd = 3 \/ kd = 4)%nat as [->|[->|[->| ->]]] by lia; assumption.
+  intros kd Hkd. assert (kd = 1 \/ kd = 2 \/ kd = 3 \/ kd = 4 \/ kd = 5)%nat as [->|[->|[->|[->| ->]]]] by lia; assumption.
 Qed.
 
 (* entry j of a row *)
@@ -51,14 +51,14 @@ Variable k : call.
 Hypothesis Hcheck : check c = [].
 Hypothesis Hk : In k (c_calls c).
 Hypothesis Hcross : k_cross k = true.
-(* the first presentation is the reference, all others are of one of the four compared kinds *)
-Hypothesis Hkinds : forall j kd, nth_error (c_pk c) (S j) = Some kd -> (1 <= kd <= 4)%nat.
+(* the first presentation is the reference, all others are of one of the five compared kinds *)
+Hypothesis Hkinds : forall j kd, nth_error (c_pk c) (S j) = Some kd -> (1 <= kd <= 5)%nat.
 
 Let Htw : twice_ok k = true.
 Proof. destruct (check_flags c Hcheck) as (H & _). rewrite forallb_forall in H. apply H. exact Hk. Qed.
 Let Hse : seeds_ok k = true.
 Proof. destruct (check_flags c Hcheck) as (_ & H & _). rewrite forallb_forall in H. apply H. exact Hk. Qed.
-Let Hpr : forall kd, (1 <= kd <= 4)%nat -> pres_ok kd (c_pk c) k = true.
+Let Hpr : forall kd, (1 <= kd <= 5)%nat -> pres_ok kd (c_pk c) k = true.
 Proof.
   intros kd Hkd. destruct (check_flags c Hcheck) as (_ & _ & H & _). specialize (H kd Hkd).
   rewrite forallb_forall in H. apply H. exact Hk.
